@@ -36,7 +36,7 @@ func init() {
 		Quick: 5000, Thorough: 500000,
 		Run:        runC08,
 		Rule:       "one run = one generated (type, value, protocol in {binary strict, binary non-strict, compact}) whose encoding E decodes; evaluations = individual faulted decodes: EOF at every offset of E through bytes.Reader and through the simulated reader (both io.ByteReader flavours), a reader error at every offset (all offsets up to 512 bytes, sampled beyond), chunk schedules, 6 byte substitutions per offset, every length / element count set to negative, oversized and out-of-range values, foreign fields of 12 shapes x 4 undeclared ids at every field boundary of every struct level, trailing bytes, each required field removed, each declared top-level field given another wire type, direct Reader method calls on arbitrary bytes. non-trivial = E has at least 2 bytes; distinct = distinct hash of (type, protocol, E)",
-		FaultKinds: []string{"eof-at-offset(bytes.Reader)", "eof-at-offset(simulated reader)", "eof-at-offset(simulated ByteReader)", "reader-error-at-offset", "chunked-delivery", "rot(byte-substitution)", "size-negative", "size-oversized", "size-out-of-range", "foreign-field", "foreign-field-nested-level", "foreign-field-with-corrupted-size", "trailing-bytes", "required-field-removed", "failed-decode-then-decode", "long-lived-decoder", "destination-emptied-and-reused", "large-binary(>64KiB)", "nested-required-field-removed", "required-field-removed-while-another-is-repeated", "nested-wire-type-changed(strict)", "wire-type-changed(strict)", "wire-type-changed(non-strict)", "element-type-changed(strict)", "reader-method-on-arbitrary-bytes", "scaling-probe(n vs 8n elements)", "inflated-count-on-a-long-collection", "protocol:binary", "protocol:binary-nonstrict", "protocol:compact", "cut-inside-length", "data+err"},
+		FaultKinds: []string{"eof-at-offset(bytes.Reader)", "eof-at-offset(simulated reader)", "eof-at-offset(simulated ByteReader)", "reader-error-at-offset", "chunked-delivery", "rot(byte-substitution)", "size-negative", "size-oversized", "size-out-of-range", "foreign-field", "foreign-field-nested-level", "foreign-field-with-corrupted-size", "trailing-bytes", "required-field-removed", "failed-decode-then-decode", "long-lived-decoder", "message-written-from-the-tags", "eof-right-behind-a-foreign-field", "destination-emptied-and-reused", "large-binary(>64KiB)", "nested-required-field-removed", "required-field-removed-while-another-is-repeated", "nested-wire-type-changed(strict)", "wire-type-changed(strict)", "wire-type-changed(non-strict)", "element-type-changed(strict)", "reader-method-on-arbitrary-bytes", "scaling-probe(n vs 8n elements)", "inflated-count-on-a-long-collection", "protocol:binary", "protocol:binary-nonstrict", "protocol:compact", "cut-inside-length", "data+err"},
 		ProbeNames: []string{"messages", "decoder-reset-after-failure", "strict-after-reset-checked", "precondition-failed(skipped)", "struct-levels>1", "E>=128B", "required-fields", "alloc-precise-samples", "eof-k0", "sites", "reference-parse-failed(structural operators skipped)"},
 		Real:       []string{"thrift.Unmarshal, thrift.Decoder (strict and non-strict), binary and compact Readers compiled from /repo's working tree with sync and sync/atomic redirected to the shim (deterministic simulated sync.Pool, pristine library state before every run)"},
 		Model:      []string{"storage/transport medium (fault operators over the encoded bytes)", "io.Reader (simio.Reader with and without io.ByteReader)", "reference thrift parser/serialiser for both protocols (verifsim/ref) used to locate sizes and struct levels and to build foreign fields, removed fields and retyped fields"},
@@ -369,6 +369,123 @@ func thriftIDs(rt reflect.Type) (all map[int]bool, top map[int]bool, required []
 	return
 }
 
+// thriftFieldPaths is thriftFieldsOf with the index path of every field from the
+// root struct.
+func thriftFieldPaths(st reflect.Type, prefix []int) (fs []reflect.StructField, paths [][]int) {
+	for i := 0; i < st.NumField(); i++ {
+		f := st.Field(i)
+		path := append(append([]int(nil), prefix...), i)
+		if f.Anonymous {
+			ft := f.Type
+			if ft.Kind() == reflect.Ptr {
+				continue // would need allocation through an embedded pointer: left out here
+			}
+			if ft.Kind() == reflect.Struct {
+				a, b := thriftFieldPaths(ft, path)
+				fs, paths = append(fs, a...), append(paths, b...)
+				continue
+			}
+		}
+		if f.PkgPath != "" || f.Tag.Get("thrift") == "" {
+			continue
+		}
+		fs, paths = append(fs, f), append(paths, path)
+	}
+	return
+}
+
+// c08Synth builds a message for a struct type from its tags (scalar and string
+// fields only, each with a distinct sample value), decodes it, and looks each value
+// up in the field the tag belongs to.
+func c08Synth(r *core.Run, ty *simType, pi int) bool {
+	fs, paths := thriftFieldPaths(ty.rt, nil)
+	var tree ref.TVal
+	tree.Type = ref.TStruct
+	type want struct {
+		path []int
+		i    int64
+		s    string
+		kind reflect.Kind
+	}
+	var wants []want
+	for k, f := range fs {
+		parts := strings.Split(f.Tag.Get("thrift"), ",")
+		id, err := strconv.Atoi(parts[0])
+		if err != nil || f.Type.Kind() == reflect.Ptr {
+			continue
+		}
+		w := want{path: paths[k], kind: f.Type.Kind()}
+		var v ref.TVal
+		isEnum := false
+		for _, o := range parts[1:] {
+			isEnum = isEnum || o == "enum"
+		}
+		if isEnum {
+			// how an enum of another width than int32 travels is the library's own
+			// affair (C13): left out of the sample
+			continue
+		}
+		switch f.Type.Kind() {
+		case reflect.Bool:
+			v, w.i = ref.TVal{Type: ref.TFalse, I: 1}, 1
+		case reflect.Int8:
+			v, w.i = ref.TVal{Type: ref.TI8, I: int64(3 + k%50)}, int64(3+k%50)
+		case reflect.Int16:
+			v, w.i = ref.TVal{Type: ref.TI16, I: int64(300 + k)}, int64(300+k)
+		case reflect.Int32:
+			v, w.i = ref.TVal{Type: ref.TI32, I: int64(70000 + k)}, int64(70000+k)
+		case reflect.Int, reflect.Int64:
+			v, w.i = ref.TVal{Type: ref.TI64, I: int64(1)<<40 + int64(k)}, int64(1)<<40+int64(k)
+		case reflect.String:
+			w.s = fmt.Sprintf("field-%d", id)
+			v = ref.TVal{Type: ref.TBinary, Bin: []byte(w.s)}
+		default:
+			continue
+		}
+		tree.Fields = append(tree.Fields, ref.TField{ID: int16(id), Val: v})
+		wants = append(wants, w)
+	}
+	if len(wants) == 0 {
+		return true
+	}
+	sort.SliceStable(tree.Fields, func(i, j int) bool { return tree.Fields[i].ID < tree.Fields[j].ID })
+	compact := pi == 2
+	m := ref.ThriftAppend(nil, &tree, compact, !compact)
+	c := &c08Ctx{r: r, ty: ty, pi: pi}
+	warmThrift(thriftProtos[pi], ty.rt)
+	x, err, ok := c.decode(m, c08Mode{}, "written-from-the-tags")
+	if !ok {
+		return false
+	}
+	r.Fault("message-written-from-the-tags")
+	var mf *thrift.MissingField
+	if errors.As(err, &mf) {
+		return true // a required field of a kind the sample values do not cover
+	}
+	if err != nil {
+		r.Fail("synth", "message-from-tags-rejected", "a message carrying a sample value for every scalar / string field the type declares is rejected: %v (%s, type %s)\ninput=%x", err, thriftProtoNames[pi], ty.name, clip(m, 300))
+		r.ScenarioOut = c.scenario(m, nil, "")
+		return false
+	}
+	for _, w := range wants {
+		fv := x.Elem().FieldByIndex(w.path)
+		bad := false
+		switch w.kind {
+		case reflect.Bool:
+			bad = !fv.Bool()
+		case reflect.String:
+			bad = fv.String() != w.s
+		default:
+			bad = fv.Int() != w.i
+		}
+		if bad {
+			r.Fail("synth", "value-in-the-wrong-field", "a message carrying a distinct sample value for every scalar / string field: the field at index path %v (%s) holds %v, expected %v%s (%s, type %s)\ninput=%x", w.path, w.kind, fv.Interface(), w.i, w.s, thriftProtoNames[pi], ty.name, clip(m, 300))
+			return false
+		}
+	}
+	return true
+}
+
 // thriftTypeOfGo maps a Go field type to the thrift type of its wire form (scalars,
 // strings and structs only: enough to complete a message with zero values).
 func thriftTypeOfGo(t reflect.Type) (int8, bool) {
@@ -596,6 +713,13 @@ func runC08(r *core.Run) {
 		}
 	}
 	p := thriftProtos[pi]
+	// a message written from the type's own tags, without the library's encoder: every
+	// scalar / string field set to a sample value must arrive in that field
+	if ty.rt.Kind() == reflect.Struct && ty.rt != reflect.TypeOf(TUnion{}) && t.Chance(1, 6) {
+		if !c08Synth(r, ty, pi) {
+			return
+		}
+	}
 	e, err := thriftMarshalNoPanic(p, v.Elem().Interface())
 	maxE := 2 << 10
 	if r.Tier == "thorough" {
@@ -830,6 +954,9 @@ func runC08(r *core.Run) {
 			r.Probe("struct-levels>1")
 		}
 		ids := []int16{int16(maxID + 1), int16(maxID + 70), 30000, -5}
+		if !all[0] {
+			ids = append(ids, 0) // field id zero is legal on the wire
+		}
 		for g := 1; g < maxID; g++ {
 			if !all[g] {
 				ids = append(ids, int16(g))
@@ -878,6 +1005,28 @@ func runC08(r *core.Run) {
 						if !sameAsBase(x) {
 							fail("foreign-field", "foreign-field-changes-value", m, "same-as-base", "a field with undeclared id %d of thrift type %d inserted at boundary %d of struct level %d changes the decoded value (%s, type %s)\ninput=%x\nbase=%x", id, fvals[fi].Type, bi, li, thriftProtoNames[pi], ty.name, clip(m, 300), clip(e, 300))
 							return
+						}
+						// the input ends right behind that field (top level, scalar shapes):
+						// truncated, whatever the id of the last field read
+						if li == 0 && fi < 8 && (fi+bi)%3 == 0 {
+							lv.Fields = nf[: bi+1 : bi+1]
+							whole := ref.ThriftAppend(nil, &tree, compact, stop3)
+							lv.Fields = saved
+							stopLen := 1
+							if stop3 {
+								stopLen = 3
+							}
+							if cutm := whole[:len(whole)-stopLen]; len(cutm) > 0 {
+								_, err, ok := c.decode(cutm, c08Mode{}, "torn-behind-foreign-field")
+								if !ok {
+									return
+								}
+								r.Fault("eof-right-behind-a-foreign-field")
+								if err == nil || err == io.EOF || !errors.Is(err, io.ErrUnexpectedEOF) {
+									fail("eof-class", "truncated-not-unexpected-eof", cutm, "unexpected-eof", "input ending right behind a field with undeclared id %d (no STOP): expected an unexpected-EOF class error, got %v (%s, type %s)\ninput=%x", id, err, thriftProtoNames[pi], ty.name, clip(cutm, 300))
+									return
+								}
+							}
 						}
 					}
 				}
